@@ -5,6 +5,33 @@ from pathlib import Path
 VERIF = Path(__file__).resolve().parent.parent
 
 CHECKS = {
+    "C01": dict(
+        level="translation_validation",
+        text=("Every generated decode_pgn_* function is treated as one translated program of the database definition. "
+              "For each of the 418 definitions the harness builds payloads with every positioned field at each boundary "
+              "class (range ends, +-1, zero, sign boundary, not-available pattern, error indicator, all ones/zeros, top bit) "
+              "plus random in-range and arbitrary payloads, decodes them through the public path, and TLC judges every "
+              "observation (header, per-field id/name/unit/quantity/type/primary-key flag, value and raw value as exact tick "
+              "counts, lookup names, bit-lookup joins, fixed strings, binary, IEEE bits, date/time, or the error) against "
+              "spec/N2KCodec.tla evaluated on the database (loaded from /repo/canboat.json at check time), including the "
+              "must-return clause. MC_CodecLaws checks the oracle's bit arithmetic against TLC integers for all widths <= 8 (10 thorough)."),
+        note=("Trusted: TLC; exact reading of database literals; 2^-50 relative float tolerance for 'value is this multiple "
+              "of the resolution'. Variable-position fields (after STRING_LAU/LZ, variable BINARY, KEY_VALUE) are checked "
+              "for metadata only; definitions containing a field type the generator rejects (19) are only required to fail."),
+        design="5/C01",
+        technique="TLA+ spec N2KCodec evaluated by TLC on recorded decodes of all generated decoders (record validation, sharded)",
+    ),
+    "C08": dict(
+        level="translation_validation",
+        text=("TLC checks N2KCodec!Select on the real database for all 163 definitions of the 25 multi-definition PGNs "
+              "(Carries, FillIndependent, FirstInOrder; shadowed definitions reported). The 25 generated dispatchers are then "
+              "driven with products of {own match value, siblings' values, a value matching none} per match position x "
+              "several fills of the remaining bits; the definition the library returns (or whose decoder raised) is judged by "
+              "TLC against Select for every payload."),
+        note="Trusted: TLC; when the selected decoder raises, the definition is read from the generated function name in the traceback.",
+        design="5/C08",
+        technique="TLA+ operator Select model-checked on the database; dispatcher observations validated by TLC",
+    ),
     "C05": dict(
         level="model_checking",
         text=("TLC checks the identifier laws of spec/N2KCanId.tla (IdLaw, TupleLaw) over every "
